@@ -10,6 +10,19 @@ open Py Rotation Rotation.Gen
 /-- every meaning except monthly/yearly satisfies the two step obligations outright -/
 theorem step_obligations (F : Form) (hv : F.Valid) (hp : F.Plain) : StepOK F := stepOK_plain F hv hp
 
+/-- FULL statement for monthly / yearly (kept visible): the two step obligations hold outright -/
+def step_obligations_calendar_statement : Prop := StepOK Form.monthly ∧ StepOK Form.yearly
+
+/-- proved part for monthly / yearly: the obligations follow from one explicit fact about
+`Py/Calendar` (`CalendarMonthFact`: `civilOfDays z` names the month that contains day `z`); that
+month starts increase strictly (`monthStart_lt_succ`) IS proved.  The fact itself is validated for
+every day of years 1..9999 against `datetime.date` by the correspondence run, not by the kernel. -/
+theorem step_obligations_calendar_partial (hcal : CalendarMonthFact) : step_obligations_calendar_statement :=
+  stepOK_calendar hcal
+
+/-- month starts are strictly increasing, for all month numbers (no calendar assumption) -/
+theorem month_starts_increase (i : Int) : monthStart i < monthStart (i + 1) := monthStart_lt_succ i
+
 /-- the latest instant seen so far, in the governing frame -/
 def latest (g : Int) : Int → List CallIn → Int
   | τ, [] => τ
@@ -114,15 +127,17 @@ theorem catchUp_more_fuel (f : Int → Int) (r : Int) :
   | zero =>
     intro l h
     simp only [catchUp] at h
-    simp [catchUp, catchUpCond]; omega
+    exact catchUp_stop f 1 l r (by omega)
   | succ n ih =>
     intro l h
     by_cases hle : l ≤ r
-    · have e1 : catchUp f (n + 1 + 1) l r = catchUp f (n + 1) (f l) r := by
-        simp [catchUp, catchUpCond, hle]
-      have e2 : catchUp f (n + 1) l r = catchUp f n (f l) r := by
-        simp [catchUp, catchUpCond, hle]
-      rw [e1, e2]; rw [e2] at h; exact ih (f l) h
+    · have hc : catchUpCond l r = true := (catchUpCond_iff l r).mpr hle
+      by_cases hst : f l ≤ l
+      · simp [catchUp, hc, hst]
+      · have hadv : l < f l := by omega
+        rw [catchUp_step f (n + 1) l r hle hadv, catchUp_step f n l r hle hadv]
+        rw [catchUp_step f n l r hle hadv] at h
+        exact ih (f l) h
     · rw [catchUp_stop f _ l r hle, catchUp_stop f _ l r hle]
 
 /-- `catch_up_terminates`: from a boundary `l`, the `while self._limit <= record_time` loop leaves
